@@ -151,7 +151,7 @@ def scenarios_c10(quick, seed):
         if j % 8 == 3:
             # F24: the key holds an expired entry that has not been removed yet; the load that is started because of it is in flight
             # while a maintenance run removes the dead node (not a write): the loaded value must be cached
-            out[-1].update(getters=1 + (j // 8) % 2, bulk=0, writers=[["sweep"], ["sweep", "sweep"]][(j // 16) % 2], outcomes=["val"], dead=1, expiry=1,
+            out[-1].update(getters=1 + (j // 8) % 2, bulk=0, writers=[["sweep"], ["computecancel"], ["sweep", "sweep"], ["computecancel", "sweep"]][(j // 16) % 4], outcomes=["val"], dead=1, expiry=1,
                            policy=["random", "pct", "random", "pct"][(j // 8) % 4] + ["+inflight", "+inflight", "", "+atinstall"][(j // 8) % 4])
     return out
 
@@ -273,8 +273,9 @@ def run(prop, tier, replay=None, collect_only=False):
                 neg = []
             elif prop == "C10":
                 # F24: the removal of an expired, not yet removed entry while the load started because of it is in flight
-                inst = [("g2sweep", lr_cfg([1, 2], [], [11, 12], "WK_sweep_set", True, dead=True))]
-                neg = [("neg_F24", lr_cfg([1, 2], [], [11], "WK_sweep", False, dead=True, sweep_cancels=True), "NoDrop")]
+                inst = [("g2sweep", lr_cfg([1, 2], [], [11, 12], "WK_sweep_set", True, dead=True)), ("g2cancel", lr_cfg([1, 2], [], [11, 12], "WK_cancel_sweep", True, dead=True))]
+                neg = [("neg_F24", lr_cfg([1, 2], [], [11], "WK_sweep", False, dead=True, sweep_cancels=True), "NoDrop"),
+                       ("neg_F24cancel", lr_cfg([1, 2], [], [11], "WK_cancel", False, dead=True, sweep_cancels=True), "NoDrop")]
                 if not quick:
                     inst += [("g2r1sweep", lr_cfg([1, 2], [3], [11, 12], "WK_sweep_set", True, dead=True)), ("g2r1sweepinv", lr_cfg([1, 2], [3], [11, 12], "WK_sweep_inv", True, dead=True))]
             elif prop == "C20":
